@@ -420,3 +420,100 @@ pub fn cli_worker(ctx: &mut Ctx) {
         ctx.report.notes.push("harper-cli lint run as a process on generated .md/.typ/.rs/.py files with no, one or two --only-lint-with rules; printed labels counted per message and bounded by the largest pairwise-disjoint selection of the raw lints".into());
     }
 }
+
+// ------------------------------------------------------------------------------------------
+// C14 through the JS API: `Linter::ignore_lint`, with words of the user's own dictionary around.
+
+pub fn ignore_worker(ctx: &mut Ctx) {
+    let corpus = load_corpus();
+    let n = ctx.share(3_000, 200_000);
+    let mut rng = ctx.rng("wasmignore");
+    let dialects = [harper_wasm::Dialect::American, harper_wasm::Dialect::British, harper_wasm::Dialect::Australian, harper_wasm::Dialect::Canadian];
+    let user_words = ["Quuxite", "zxqvish", "blorptastic", "Harperesque", "snarfle", "caf\u{00E9}ish"];
+    let flagged = ["an", "teh", "tset", "the the", "alot", "recieve", "a apple", "wrold", "could of", "is is"];
+    for k in 0..n {
+        let seed = rng.next();
+        let mut r = Rng(seed);
+        if !ctx.begin_case(|| json!({"fam": "wasmignore", "seed": seed}).to_string()) {
+            continue;
+        }
+        let mut lin = Linter::new(dialects[(k % 4) as usize]);
+        let words: Vec<String> = (0..r.range(0, 3)).map(|_| r.pick_str(&user_words).to_string()).collect();
+        if !words.is_empty() {
+            lin.import_words(words.clone());
+        }
+        // sentences in which a flagged clause has words of the user's dictionary as neighbours
+        let mut text = String::new();
+        for i in 0..r.range(1, 4) {
+            if i > 0 {
+                text.push_str(r.pick_str(&[" ", "\n\n", " "]));
+            }
+            let uw = if words.is_empty() { r.pick_str(&["window", "garden", "river"]).to_string() } else { r.pick(&words).clone() };
+            let fl = r.pick_str(&flagged);
+            match r.below(5) {
+                0 => text.push_str(&format!("We shipped {fl} {uw} build.")),
+                1 => text.push_str(&format!("The {uw} {fl} build works.")),
+                2 => text.push_str(&format!("The {uw}  build {fl} here.")),
+                3 => text.push_str(r.pick_str(&corpus.sentences)),
+                _ => text.push_str(&format!("{uw} {fl} {uw}.")),
+            }
+        }
+        let lang = if r.chance(1, 3) { Language::Markdown } else { Language::Plain };
+        ctx.report.evaluations += 1;
+        let words_w = words.clone();
+        let wit = |extra: serde_json::Value| json!({"imported_words": words_w, "text": text, "language": format!("{:?}", lang), "ignored": extra});
+        let res = guarded(|| {
+            let before = lin.lint(text.clone(), lang);
+            if before.is_empty() {
+                return None;
+            }
+            let pick = r.below(before.len());
+            let key = |l: &Lint| (l.span().start, l.span().end, l.message(), l.get_problem_text());
+            let chosen = key(&before[pick]);
+            let cloned = Lint::from_json(before[pick].to_json()).expect("lint json");
+            lin.ignore_lint(text.clone(), cloned);
+            let after = lin.lint(text.clone(), lang);
+            // through export / import into a second linter with the same words
+            let exported = lin.export_ignored_lints();
+            let mut other = Linter::new(dialects[(k % 4) as usize]);
+            if !words.is_empty() {
+                other.import_words(words.clone());
+            }
+            let imported = other.import_ignored_lints(exported).is_ok();
+            let after_other = other.lint(text.clone(), lang);
+            Some((before.iter().map(key).collect::<Vec<_>>(), chosen, after.iter().map(key).collect::<Vec<_>>(), imported, after_other.iter().map(key).collect::<Vec<_>>()))
+        });
+        match res {
+            Err(p) => ctx.report.finding("C01", &format!("panic@wasm.ignore/{}", p.sig()), text.len(), || wit(json!(null)), || p.msg.clone()),
+            Ok(None) => {}
+            Ok(Some((before, chosen, after, imported, after_other))) => {
+                let near_user_word = !words.is_empty() && words.iter().any(|w| text.contains(w.as_str()));
+                ctx.report.nontrivial(fnv_mix(fnv(chosen.2.as_bytes()), (near_user_word as u64) << 1 | (before.len() > 1) as u64));
+                let cw = json!({"span": [chosen.0, chosen.1], "message": chosen.2, "flagged": chosen.3});
+                if after.contains(&chosen) {
+                    ctx.report.finding("C14", if near_user_word { "js.still-reported@user-words" } else { "js.still-reported" }, text.len(), || wit(cw.clone()),
+                        || format!("after Linter::ignore_lint the lint {:?} at {}..{} is still returned by Linter::lint on the same text", chosen.2, chosen.0, chosen.1));
+                }
+                for b in &before {
+                    if (b.2.clone(), b.3.clone()) != (chosen.2.clone(), chosen.3.clone()) && !after.contains(b) {
+                        ctx.report.finding("C14", "js.other-hidden", text.len(), || wit(cw.clone()), || format!("ignoring {:?} on {:?} also removed {:?} on {:?}", chosen.2, chosen.3, b.2, b.3));
+                        break;
+                    }
+                }
+                if !imported {
+                    ctx.report.finding("C14", "js.import-failed", text.len(), || wit(cw.clone()), || "import_ignored_lints rejected what export_ignored_lints produced".to_string());
+                } else if after_other != after {
+                    ctx.report.finding("C14", "js.export-import-differs", text.len(), || wit(cw.clone()),
+                        || format!("a second linter with the same dictionary that imported the exported list returns {} lints, the first one {}", after_other.len(), after.len()));
+                }
+            }
+        }
+        if ctx.report.samples.len() < 3 && !words.is_empty() {
+            ctx.report.samples.push(json!({"imported_words": words, "text": truncate_str(&text, 140)}));
+        }
+        ctx.end_case();
+    }
+    if ctx.shard == 0 {
+        ctx.report.notes.push("harper_wasm::Linter::ignore_lint with imported user words next to the flagged text: gone afterwards, nothing with another message or flagged text hidden, export -> import into a second linter equivalent".into());
+    }
+}
